@@ -286,13 +286,18 @@ def dispersive_leaf(ctx, lentil, rng):
         lam0 = 600e-9
         disp = [rng.uniform(-1e-9, 1e-9) for _ in range(do - 1)] + [rng.choice((-1, 1)) * rng.uniform(2e-6, 8e-6), lam0]
         lam = lam0 + rng.choice((-20e-9, 10e-9, 25e-9))        # few wavelengths: different elements meet at the same one
-        el = lentil.DispersiveTilt(trace=trace, dispersion=disp)
         xs, ys = rng.uniform(-1e-3, 1e-3), rng.uniform(-1e-3, 1e-3)
-        x, y = el.shift(wavelength=lam, xs=xs, ys=ys)
-        x, y = float(np.squeeze(x)), float(np.squeeze(y))
-        # the same element evaluated again (same wavelength, same and other incoming displacement) must agree with itself
-        xa, ya = el.shift(wavelength=lam, xs=xs, ys=ys)
-        xb, yb = el.shift(wavelength=lam, xs=0.0, ys=0.0)
+        try:
+            el = lentil.DispersiveTilt(trace=trace, dispersion=disp)
+            x, y = el.shift(wavelength=lam, xs=xs, ys=ys)
+            x, y = float(np.squeeze(x)), float(np.squeeze(y))
+            # the same element evaluated again (same wavelength, same and other incoming displacement) must agree with itself
+            xa, ya = el.shift(wavelength=lam, xs=xs, ys=ys)
+            xb, yb = el.shift(wavelength=lam, xs=0.0, ys=0.0)
+        except Exception as ex:
+            ctx.violation({'kind': 'dispersive-leaf', 'trace_order': to, 'dispersion_order': do, 'clause': 'shift-raises-' + type(ex).__name__},
+                          {'trace': trace, 'dispersion': disp, 'wavelength': lam, 'error': repr(ex)[:200]}, case=None)
+            continue
         if abs(float(np.squeeze(xa)) - x) > 1e-12 or abs(float(np.squeeze(ya)) - y) > 1e-12 or \
                 abs(float(np.squeeze(xb)) + xs - x) > 1e-9 * (1 + abs(x)) or abs(float(np.squeeze(yb)) + ys - y) > 1e-9 * (1 + abs(y)):
             ctx.violation({'kind': 'dispersive-leaf', 'trace_order': to, 'dispersion_order': do, 'clause': 'depends-on-earlier-evaluation'},
@@ -317,6 +322,29 @@ def dispersive_leaf(ctx, lentil, rng):
         if not same:
             ctx.violation({'kind': 'dispersive-leaf', 'trace_order': to, 'dispersion_order': do, 'clause': 'polynomials-replaced-after-use'},
                           {'trace': trace2, 'dispersion': disp2, 'wavelength': lam}, case=None)
+        # ... and likewise when its owner edits the coefficient arrays IN PLACE between two uses at this wavelength (the element, a
+        # wavefront that passes it now, and a fresh element with the new coefficients agree; a wavefront that passed BEFORE keeps the old)
+        try:
+            el3 = lentil.DispersiveTilt(trace=list(trace), dispersion=list(disp))
+            before = lentil.Wavefront(lam) * el3
+            el3.shift(wavelength=lam, xs=xs, ys=ys)
+            old_shift = [f.tilt[-1].shift(wavelength=lam, xs=xs, ys=ys) for f in before.data][0]
+            el3.trace[-2] = trace2[-2]
+            el3.dispersion[-2] = disp2[-2]
+            t3 = list(trace[:-2]) + [trace2[-2], trace[-1]]
+            d3 = list(disp[:-2]) + [disp2[-2], disp[-1]]
+            fresh = lentil.DispersiveTilt(trace=t3, dispersion=d3).shift(wavelength=lam, xs=xs, ys=ys)
+            now = el3.shift(wavelength=lam, xs=xs, ys=ys)
+            after = [f.tilt[-1].shift(wavelength=lam, xs=xs, ys=ys) for f in (lentil.Wavefront(lam) * el3).data][0]
+            kept = [f.tilt[-1].shift(wavelength=lam, xs=xs, ys=ys) for f in before.data][0]
+            cl = lambda a, b: abs(float(np.squeeze(a[0])) - float(np.squeeze(b[0]))) <= 1e-12 and abs(float(np.squeeze(a[1])) - float(np.squeeze(b[1]))) <= 1e-12
+            same = cl(now, fresh) and cl(after, fresh) and cl(kept, old_shift)
+            err = None
+        except Exception as ex:
+            same, err = False, repr(ex)[:160]
+        if not same:
+            ctx.violation({'kind': 'dispersive-leaf', 'trace_order': to, 'dispersion_order': do, 'clause': 'coefficients-edited-in-place-between-uses'},
+                          {'wavelength': lam, 'error': err}, case=None)
         # the element must be usable where it is meant to be used: in a propagation it displaces the image exactly as the angular
         # tilt with the same focal-plane displacement does (a tilt about the x axis displaces along y: Tilt(x=a, y=b) shifts by (-z b, -z a))
         zf = 2.0
@@ -484,6 +512,28 @@ def outside_mask_leaf(ctx, lentil, rng):
             ok, err = False, repr(ex)[:160]
         if not ok:
             ctx.violation({'kind': 'complex-typed-amplitude-through-fit-tilt', 'segmented': segmented}, {'shape': list(shape), 'error': err}, case=None)
+        # a plane that already carries fitted tilt, refitted after an OPD update WITHOUT inplace: what comes back is a plane of its own -
+        # editing its recorded tilts (or adding one) does not reach the original
+        n += 1
+        ctx.case(('refit-copy-then-edit-tilts', segmented, shape, a_, b_))
+        P0 = lentil.Pupil(amplitude=amp, opd=opd * (amp != 0), mask=masks, pixelscale=dx, focal_length=2.0)
+        P0.fit_tilt(inplace=True)
+        P0.opd = np.asarray(P0.opd) + 0.5 * opd * (amp != 0)
+        snap = [(t.x, t.y) for t in P0.tilt]
+        for variant in ('refit', 'nothing-to-fit'):
+            if variant == 'nothing-to-fit':
+                src = lentil.Pupil(amplitude=amp, opd=0.0, mask=masks, pixelscale=dx, focal_length=2.0)
+                src.tilt = [lentil.Tilt(x=1e-6, y=-1e-6)]
+                snap_v = [(t.x, t.y) for t in src.tilt]
+            else:
+                src, snap_v = P0, snap
+            Rr = src.fit_tilt()
+            for t in Rr.tilt:
+                t.x += 1e-6
+            Rr.tilt.append(lentil.Tilt(x=3e-6, y=0.0))
+            if [(t.x, t.y) for t in src.tilt] != snap_v:
+                ctx.violation({'kind': 'editing-the-plane-fit-tilt-returned-changes-the-original', 'segmented': segmented, 'variant': variant},
+                              {'recorded_before': snap_v, 'recorded_after': [(t.x, t.y) for t in src.tilt]}, case=None)
         # in place on a shallow copy: the original keeps describing what it described
         n += 1
         ctx.case(('fit-on-shallow-copy', segmented, shape, a_, b_))
